@@ -16,7 +16,7 @@ RULE = ("model-based histories: a capability profile (breeze in {breeze-control,
         "both, none}; rate select none/2-level/5-level; iECO, self-clean, vertical/horizontal swing angle present or not) and a "
         "list of up to 25 (quick) / 40 (thorough) operations from {set angle (every member), set rate select (members the profile "
         "supports), breeze_away/mild/breezeless := bool (only where supports_* is true), ieco := bool, start_self_clean, beep := "
-        "bool, change an ordinary 0x40 setting, apply, apply during which the reply to the state command is lost or corrupted, apply during which another setter is called while it waits for the device, apply whose calling task is cancelled just after its property write reached the device (exactly one write, none by the next apply), refresh, device-side change of a property}. Start: get_capabilities(), "
+        "bool, change ordinary 0x40 settings (setpoint, eco, swing mode, power, mode, fan, turbo), apply, apply during which the reply to the state command is lost or corrupted, apply during which another setter is called while it waits for the device, apply whose calling task is cancelled just after its property write reached the device (exactly one write, none by the next apply), refresh, device-side change of a property}. Start: get_capabilities(), "
         "refresh(). Oracle: the model device's property store and write log: after each apply every property whose setter was "
         "called since the previous apply appears in exactly one 0xB0 of that apply under the advertised id with the vendor value "
         "(angles/rates raw, breeze-control 1..4, breeze-away 2/1, breezeless 1/0, iECO 13-byte record with number at 1 and switch "
@@ -182,8 +182,14 @@ def check_case(case: dict):
                 ac.beep = op[1]
                 beep = op[1]
             elif k == "setting":
+                # ordinary settings of the 0x40 state command; they must not influence what the property protocol carries
                 ac.target_temperature = 17.0 + (op[1] % 27) * 0.5
                 ac.eco = bool(op[1] & 1)
+                ac.swing_mode = AC.SwingMode([0x0, 0xC, 0x3, 0xF][(op[1] >> 1) % 4])
+                ac.power_state = bool((op[1] >> 3) & 1)
+                ac.operational_mode = AC.OperationalMode(1 + (op[1] >> 2) % 5)
+                ac.fan_speed = [102, 100, 80, 60, 40, 20, 55][op[1] % 7]
+                ac.turbo = bool((op[1] >> 4) & 1)
             elif k == "clean" and profile["self_clean"]:
                 mark = len(m.prop_writes)
                 await ac.start_self_clean()
@@ -435,6 +441,7 @@ def run(ctx) -> None:
                 scripts.append([setter, ["apply_lossy", len(scripts) % 2], ["refresh"], ["apply"], ["refresh"]])
                 scripts.append([setter, ["apply_concurrent", len(scripts) % 3, len(scripts) % 5], ["apply"], ["refresh"], ["apply"]])
                 scripts.append([setter, ["apply_cancelled", len(scripts) % 4], ["apply"], ["refresh"], ["apply"]])
+                scripts.append([["setting", len(scripts) % 61], ["apply"], setter, ["apply"], ["refresh"], ["setting", (len(scripts) * 7) % 61], setter, ["apply"], ["refresh"]])
                 scripts.append([["breezeless", True], ["apply"], setter, ["apply"], ["refresh"], ["remote", 0x0042, 1], ["refresh"], ["remote", 0x0018, 1], ["refresh"]])
             scripts.append([["away", True], ["breezeless", True], ["apply"], ["refresh"], ["away", True], ["apply"], ["refresh"], ["breezeless", False], ["apply"], ["refresh"]])
             for s in scripts:
